@@ -762,6 +762,65 @@ class FakePath:
             return posixpath.normpath(path)
 
 
+class Unmodelled(BaseException):
+    """psutil asked the simulated kernel for something it does not model: the
+    check cannot judge this tree (machinery failure, never a verdict)."""
+
+
+class _DirEntry:
+    def __init__(self, w, dirpath, name):
+        self._w, self.name = w, name
+        sep = b"/" if isinstance(dirpath, bytes) else "/"
+        self.path = dirpath.rstrip(sep) + sep + name if dirpath not in (".", b".") else name
+
+    def __fspath__(self):
+        return self.path
+
+    def __repr__(self):
+        return "<DirEntry %r>" % (self.name,)
+
+    def stat(self, follow_symlinks=True):
+        return self._w.sys_stat(self.path, follow=follow_symlinks)
+
+    def _is(self, pred, follow):
+        try:
+            return pred(self.stat(follow_symlinks=follow).st_mode)
+        except OSError:
+            return False
+
+    def is_dir(self, follow_symlinks=True):
+        return self._is(_stat.S_ISDIR, follow_symlinks)
+
+    def is_file(self, follow_symlinks=True):
+        return self._is(_stat.S_ISREG, follow_symlinks)
+
+    def is_symlink(self):
+        return self._is(_stat.S_ISLNK, False)
+
+    def inode(self):
+        return abs(hash(self.path)) % (2 ** 31)
+
+
+class _ScanDir:
+    def __init__(self, w, path, names):
+        self._it = iter([_DirEntry(w, path, n) for n in names])
+
+    def __iter__(self):
+        return self
+
+    def __next__(self):
+        return next(self._it)
+
+    def __enter__(self):
+        return self
+
+    def __exit__(self, *a):
+        self.close()
+
+    def close(self):
+        self._it = iter(())
+
+
 class FakeOS:
     """Stands in for the `os` module inside psutil's namespaces."""
 
@@ -776,7 +835,58 @@ class FakeOS:
         return self._w.sys_listdir(path)
 
     def scandir(self, path="."):
-        raise NotImplementedError("simkernel: scandir")
+        # one getdents pass, like listdir(); entry types are looked up on demand
+        names = self._w.sys_listdir(path)
+        return _ScanDir(self._w, path, names)
+
+    # ---- process-directed calls psutil could make through `os` instead of
+    # ---- its C extension: same simulated kernel, same records
+    def getpriority(self, which, who):
+        if which != _os.PRIO_PROCESS:
+            raise Unmodelled("os.getpriority(which=%r)" % (which,))
+        return self._w.fake_cext_posix.getpriority(who or self._w.caller_pid)
+
+    def setpriority(self, which, who, prio):
+        if which != _os.PRIO_PROCESS:
+            raise Unmodelled("os.setpriority(which=%r)" % (which,))
+        if isinstance(prio, float):
+            raise TypeError("'float' object cannot be interpreted as an integer")
+        return self._w.fake_cext_posix.setpriority(who or self._w.caller_pid, prio)
+
+    def sched_getaffinity(self, pid):
+        return set(self._w.fake_cext.proc_cpu_affinity_get(pid or self._w.caller_pid))
+
+    def sched_setaffinity(self, pid, mask):
+        cpus = list(mask)
+        for c in cpus:
+            if isinstance(c, int) and c < 0:
+                raise ValueError("negative CPU number")
+        return self._w.fake_cext.proc_cpu_affinity_set(pid or self._w.caller_pid, cpus)
+
+    def getppid(self):
+        return self._w.procs[self._w.caller_pid].ppid
+
+    def getpgid(self, pid):
+        if pid and self._w._proc_entry(pid) is None:
+            raise oserr(errno.ESRCH)
+        return pid or self._w.caller_pid          # every simulated process leads its own group
+
+    getsid = getpgid
+
+    def killpg(self, pgid, sig):
+        return self._w.sys_kill(-pgid, sig)
+
+    def _unmodelled(name):          # noqa: N805
+        def f(self, *a, **k):
+            raise Unmodelled("os.%s%r" % (name, a))
+        f.__name__ = name
+        return f
+
+    for _n in ("wait", "wait3", "wait4", "waitid", "pidfd_open", "fork", "forkpty", "posix_spawn", "posix_spawnp",
+               "setpgid", "sched_setscheduler", "sched_getscheduler", "sched_setparam", "sched_getparam",
+               "sched_rr_get_interval", "open", "openpty", "pipe", "pipe2"):
+        locals()[_n] = _unmodelled(_n)
+    del _n, _unmodelled
 
     def readlink(self, path):
         return self._w.sys_readlink(path)
@@ -1165,21 +1275,29 @@ def install(w):
     import inspect
     import psutil
     from psutil import _common, _pslinux, _psposix
-    fo, fg, ft = FakeOS(w), FakeGlob(w), FakeTime(w)
-    _common.open = sim_open_factory(w)
-    _common.os = fo
-    _pslinux.os = fo
-    _pslinux.glob = fg
-    _pslinux.resource = FakeResource(w)
+    fo, fg, ft, fr = FakeOS(w), FakeGlob(w), FakeTime(w), FakeResource(w)
+    so = sim_open_factory(w)
     real_cext = getattr(_pslinux.cext, "_real", _pslinux.cext)
     real_cp = getattr(_pslinux.cext_posix, "_real", _pslinux.cext_posix)
-    _pslinux.cext = FakeCext(w, real_cext)
-    _pslinux.cext_posix = FakeCextPosix(w, real_cp)
-    _psposix.os = fo
-    _psposix.glob = fg
-    _psposix.time = ft
-    psutil.os = fo
-    psutil.time = ft
+    w.fake_cext = FakeCext(w, real_cext)
+    w.fake_cext_posix = FakeCextPosix(w, real_cp)
+    import glob as _glob
+    import resource as _resource
+    import time as _time
+    stand_ins = [((_os, FakeOS), fo), ((_glob, FakeGlob), fg), ((_time, FakeTime), ft), ((_resource, FakeResource), fr),
+                 ((real_cext, FakeCext), w.fake_cext), ((real_cp, FakeCextPosix), w.fake_cext_posix)]
+    for mod in (psutil, _common, _pslinux, _psposix):
+        # whichever of these modules a layer imports, under whatever name, it gets the simulated one
+        for name, val in list(vars(mod).items()):
+            for (real, cls), fake in stand_ins:
+                if val is real or isinstance(val, cls):
+                    setattr(mod, name, fake)
+        mod.open = so            # (a layer calling the builtin directly instead of _common.open_binary)
+    _common.os, _pslinux.os, _psposix.os, psutil.os = fo, fo, fo, fo
+    _pslinux.glob, _psposix.glob = fg, fg
+    _psposix.time, psutil.time = ft, ft
+    _pslinux.resource = fr
+    _pslinux.cext, _pslinux.cext_posix = w.fake_cext, w.fake_cext_posix
     psutil._timer = w.monotonic
     # wait_pid binds _timer/_sleep/_pid_exists at definition time: rebuild the
     # defaults by parameter name
